@@ -52,7 +52,7 @@ func checkC12(c C12Case, o *vcore.Obs) error {
 	w := cleaner.New(c12DB, h, conf, logrus.StandardLogger())
 	now := c12Epoch
 	lastPub := map[string]time.Time{}
-	firstSeen := map[string]time.Time{} // model: first run at which a name was listed
+	firstSeen := map[string]time.Time{}  // model: first run at which a name was listed
 	committed := map[string]time.Time{}  // model: what was merged AND followed by an own upload
 	liveMerged := map[string]time.Time{} // the syncer's own map (one object for the whole history, as in the syncer)
 	ctx := context.Background()
